@@ -382,7 +382,14 @@ class AstGen:
         elif t.startswith("float"):
             it["text"] = r.choice(["1.5", "-0.25", "3", "inf", "-inf", "nan", "0.0", "123456.789"])
         elif t == "string":
-            it["text"] = '"' + r.choice(["hello", "", "tab\\there", "q\\\"uote", "back\\\\slash", "nl\\nx", "unié"]) + '"'
+            fixed = ["hello", "", "tab\\there", "q\\\"uote", "back\\\\slash", "nl\\nx", "unié",
+                     "100% sure", "%d of %s items", "50%% off", "%", "%!", "%v%", "`tick`", "$x {y} [z]", "a/*b*/c", "//not a comment", "semi;colon", "\\\\%d\\n"]
+            if r.below(3) == 0:
+                # any printable ASCII except the two bytes that need escaping
+                body = "".join(chr(r.choice([c for c in range(32, 127) if c not in (34, 92)])) for _ in range(r.below(12)))
+            else:
+                body = r.choice(fixed)
+            it["text"] = '"' + body + '"'
         elif t == "bool":
             it["text"] = r.choice(["true", "false"])
         else:
